@@ -477,7 +477,7 @@ class ActionWalker(xtuml.Walker):
     
     def accept_ImplicitInvocationNode(self, node):
         kwargs = self.accept(node.parameter_list)
-        item = self.domain.find_symbol(node.namespace, 'external entity')
+        item = self.domain.find_symbol(node.namespace, ['external entity', 'class'])
         fn = getattr(item, node.action_name)
         value = fn(**kwargs)
         return property(lambda: value)
@@ -490,7 +490,7 @@ class ActionWalker(xtuml.Walker):
         return property(lambda: value)
     
     def accept_ClassInvocationNode(self, node):
-        cls = self.domain.find_symbol(node.key_letter)
+        cls = self.domain.find_symbol(node.key_letter, 'class')
         op = getattr(cls, node.action_name)
         kwargs = self.accept(node.parameter_list)
         value = op(**kwargs)
